@@ -28,6 +28,10 @@ MisuseKinds == {"param_ARGS", "param_KWARGS", "kw_ARGS", "kw_KWARGS", "kw_ARGS_r
                 \* the same reserved names declared keyword-only (with a default), positional-only, or passed through **kwargs
                 "param_result_kwonly", "param_OLD_kwonly", "param_result_posonly", "param_OLD_posonly",
                 "kw_result", "kw_OLD",
+                \* an unnamed capture must have exactly one parameter, defaulted ones count: lambda x, y=2: .. / lambda x, *, y=2: ..
+                "capture_noname_default", "capture_noname_kwdefault",
+                \* falsy values that are no exception class / instance / function either
+                "error_empty_str", "error_zero", "error_empty_list", "error_false",
                 "inv_extra_param", "inv_coroutine",
                 \* (self, *args) / (self, **kwargs) / (*args) / (self, *, k): all take something besides self;
                 \* (self, other=1) never receives anything but its default: by design no misuse
@@ -36,6 +40,8 @@ MisuseKinds == {"param_ARGS", "param_KWARGS", "kw_ARGS", "kw_KWARGS", "kw_ARGS_r
 Decorators == {"require", "ensure", "invariant", "snapshot"}
 Callables == {"function", "method", "static", "classm", "getter", "async_function", "async_method", "class"}
 
+ErrorKinds == {"error_int", "error_str", "error_nonexc_class", "error_callable_object", "error_empty_str", "error_zero",
+               "error_empty_list", "error_false"}
 ReservedPost == {"param_result", "param_OLD", "param_result_kwonly", "param_OLD_kwonly", "param_result_posonly",
                  "param_OLD_posonly", "kw_result", "kw_OLD"}
 InvParamKinds == {"inv_extra_param", "inv_varargs", "inv_varkw", "inv_only_varargs", "inv_kwonly_param",
@@ -47,8 +53,9 @@ MisuseApplies(m, d, c) ==
     [] m \in {"kw_ARGS_reentrant", "kw_KWARGS_reentrant"} -> d \in {"require", "ensure"} /\ c \in {"function", "method", "static"}
     [] m \in ReservedPost -> d \in {"require", "ensure"} /\ c \notin {"class", "getter"}
     [] m \in InvParamKinds \cup {"inv_coroutine"} -> d = "invariant" /\ c = "class"
-    [] m \in {"snapshot_no_post", "capture_noname_0", "capture_noname_2", "snapshot_dup"} -> d = "snapshot" /\ c # "class"
-    [] m \in {"error_int", "error_str", "error_nonexc_class", "error_callable_object"} ->
+    [] m \in {"snapshot_no_post", "capture_noname_0", "capture_noname_2", "snapshot_dup", "capture_noname_default",
+               "capture_noname_kwdefault"} -> d = "snapshot" /\ c # "class"
+    [] m \in ErrorKinds ->
          (d \in {"require", "ensure"} /\ c # "class") \/ (d = "invariant" /\ c = "class")
 
 \* when and how it must be rejected ("never" = it is no misuse in this cell)
@@ -60,9 +67,10 @@ MisuseExpected(m, d, c) ==
          IF d = "ensure" THEN [moment |-> "call", exc |-> "TypeError"] ELSE [moment |-> "never", exc |-> ""]
     [] m = "inv_defaulted_param" -> [moment |-> "never", exc |-> ""]
     [] m \in (InvParamKinds \ {"inv_defaulted_param"}) \cup {"inv_coroutine"} -> [moment |-> "create", exc |-> "ValueError"]
-    [] m \in {"capture_noname_0", "capture_noname_2"} -> [moment |-> "create", exc |-> "ValueError"]
+    [] m \in {"capture_noname_0", "capture_noname_2", "capture_noname_default", "capture_noname_kwdefault"} ->
+         [moment |-> "create", exc |-> "ValueError"]
     [] m \in {"snapshot_no_post", "snapshot_dup"} -> [moment |-> "decorate", exc |-> "ValueError"]
-    [] m \in {"error_int", "error_str", "error_nonexc_class", "error_callable_object"} -> [moment |-> "create", exc |-> "ValueError"]
+    [] m \in ErrorKinds -> [moment |-> "create", exc |-> "ValueError"]
 
 MisuseCells == {[t |-> "misuse", m |-> m, d |-> d, c |-> c] : m \in MisuseKinds, d \in Decorators, c \in Callables}
 \* no misuse is ever silently accepted: the documented misuses of the property have a moment
